@@ -410,10 +410,19 @@ def mid_disable(o):
     return o[7] if len(o) > 7 and isinstance(o[7], list) else None
 
 
+# How the harness hands its per-pass hook to run(iter_fn=...) (case key "iterfn"; "a function or list of functions"):
+#   func   the function itself          tuple  a tuple (no-op, hook)
+#   list   ONE list object [no-op, hook] per history, passed again to every run() period of it (the robot keeps its
+#          list of per-iteration functions in an attribute) -- run() must not leave anything of a finished period in it
+#   none   no iter_fn at all where the period makes no pass (the harness needs its hook to step a loop that runs)
+ITERFNS = ["func", "tuple", "list", "none"]
+
+
 def gen_case(r, idx, base):
     case = {"idx": idx, "fms": r.random() < 0.5}
     case["pkg"] = gen_layout(r, idx)
     case["ops"] = gen_ops(r, case, base)
+    case["iterfn"] = r.choice(["func", "func", "tuple", "list", "list", "list", "none"])
     return case
 
 
@@ -537,6 +546,17 @@ EDGE_CASES = [
     (False, [("alpha", None, [("A", "one", None, None, False, "len0"), ("B", "two", None, None, False, "bool_false")])],
      [["start", None, "one", 0], ["periodic", 20000], ["start", None, "two", 1000], ["periodic", 20000],
       ["start", None, "None", 0], ["periodic", 1000], ["disable"]]),
+    # run(iter_fn=<the robot's own list of per-iteration functions>), the SAME list object for every autonomous period
+    (False, [("alpha", None, [("A", "one", None, True, False), ("B", "two", None, None, False)])],
+     [["run", None, None, 0, 2, 20000, "disable"], ["run", None, None, 500000, 3, 20000, "teleop"],
+      ["run", "two", None, 1000, 2, 5000, "disable", ["hook", 0]]], {"iterfn": "list"}),
+    (True, [("alpha", None, [("A", "one", None, None, False)])],
+     [["run", None, "one", 0, 1, 20000, "disable"], ["start", None, "one", 0], ["periodic", 20000], ["disable"],
+      ["run", None, "one", 12345, 2, 10000, "robot_exit"]], {"iterfn": "list"}),
+    (False, [("alpha", None, [("A", "one", None, True, False)])],
+     [["run", None, None, 0, 2, 20000, "disable"], ["run", None, None, 1000, 2, 20000, "disable"]], {"iterfn": "tuple"}),
+    (False, [("alpha", None, [("A", "one", None, True, False)])],
+     [["run", None, None, 0, 0, 20000, "disable"], ["run", None, None, 1000, 2, 20000, "disable"]], {"iterfn": "none"}),
     # D15: a module file NAME in both directories of an implicit package -- one module for Python (the file in the
     # first directory of __path__), so its classes are constructed once; the other file is never looked at
     (False, [("alpha", None, [("A", "one", None, True, False)], 0), ("alpha", None, [("A", "one", None, True, False)], 1, True),
@@ -566,7 +586,9 @@ def edge_cases(base, start_idx):
         fms, mods, ops = ec[:3]
         pkg = {"kind": "present", "namespace": False, "dotted": False, "modules": [], "init_classes": [],
                "hidden": False, "txt": False, "subpkg": False, "name": "c14p%05d" % (start_idx + k)}
-        pkg.update(ec[3] if len(ec) > 3 else {})
+        extra = dict(ec[3]) if len(ec) > 3 else {}
+        iterfn = extra.pop("iterfn", None)
+        pkg.update(extra)
         for mod in mods:
             stem, fail, cls = mod[:3]
             pkg["modules"].append({"stem": stem, "fail": fail, "junk": False, "classes": [
@@ -578,7 +600,7 @@ def edge_cases(base, start_idx):
                 pkg["modules"][-1]["portion"] = mod[3]
             if len(mod) > 4 and mod[4]:
                 pkg["modules"][-1]["twin"] = True
-        out.append({"idx": start_idx + k, "fms": fms, "pkg": pkg, "ops": ops})
+        out.append({"idx": start_idx + k, "fms": fms, "pkg": pkg, "ops": ops, "iterfn": iterfn})
     return out
 
 
@@ -1040,7 +1062,7 @@ class Driver:
         SD.updateValues()
         SD.updateValues()
 
-    def run_period(self, s, nticks, period_us, exit_mode, exited, dis=None):
+    def run_period(self, s, nticks, period_us, exit_mode, exited, dis=None, iterfn=None, st=None):
         """run() in a worker thread; returns (t0, wakes, extra_end_op, problem).
         dis = [who, k]: disable() is called on the selector during loop pass k, by the iter_fn hook of that
         pass ("hook") or by this thread while the loop sleeps in delay.wait() after it ("thread")."""
@@ -1064,9 +1086,26 @@ class Driver:
                 s.disable()
             sem.release()
 
+        # how the hook is handed over (see ITERFNS)
+        st = st if st is not None else {}
+        mode = iterfn if iterfn in ITERFNS else "func"
+        if mode == "none" and nticks > 0:
+            mode = "func"
+        kw = {"control_loop_wait_time": period_us * 1e-6}
+        if mode == "func":
+            kw["iter_fn"] = hook
+        elif mode == "tuple":
+            kw["iter_fn"] = (lambda: None, hook)
+        elif mode == "list":
+            if "iter_list" not in st:
+                st["iter_list"] = [lambda: None, lambda: st["cur_hook"]()]
+            st["cur_hook"] = hook
+            kw["iter_fn"] = st["iter_list"]
+        st.setdefault("iterfn_used", []).append(mode)
+
         def body():
             try:
-                s.run(control_loop_wait_time=period_us * 1e-6, iter_fn=hook)
+                s.run(**kw)
             except BaseException as e:          # noqa
                 err.append(e)
 
@@ -1209,7 +1248,7 @@ class Driver:
                         st["ended"] = True
                     elif kind == "run":
                         self.set_sel(o[1], o[2], st)
-                        t0, wakes, ended, problem = self.run_period(s, o[4], o[5], o[6], st["ended"], mid_disable(o))
+                        t0, wakes, ended, problem = self.run_period(s, o[4], o[5], o[6], st["ended"], mid_disable(o), case.get("iterfn"), st)
                         obs["mops"].append(["run", o[1], o[2], t0, wakes])
                         if ended:
                             obs["mops"].append(["end"])
@@ -1226,6 +1265,9 @@ class Driver:
                     obs["events"].append([code[k], [fpath(stem), cn], int(round(t * 1e6))])
                 else:
                     obs["events"].append([3, [fpath(stem), cn], 0])      # a constructor call after start-up
+            obs["iterfn"] = st.get("iterfn_used", [])
+            if "iter_list" in st:
+                obs["iter_list_len"] = len(st["iter_list"])      # the caller's list: 2 functions when it was made
         # forget the package so that nothing is cached between cases
         forget_modules(name)
         remove_package(pkg, self.base)
@@ -1565,6 +1607,10 @@ def oracle(case, obs, base):
         return v
     lv = oracle_lifecycle(obs, modes)
     falsy = ["%s.%s (%s)" % (k, c["cname"], TRUTH_TEXT[c["truth"]]) for k, c in healthy if c.get("truth") in FALSY_TRUTHS]
+    if lv and obs.get("iterfn", []).count("list") >= 2:
+        lv = [(fp, text + "; run() was given iter_fn as ONE list object for all %d run() periods of this history "
+               "(it had 2 functions when it was made, %s now)" % (obs["iterfn"].count("list"), obs.get("iter_list_len")))
+              for fp, text in lv]
     if lv and falsy:
         lv = [(fp, text + "; instances of %s are falsy -- modes all the same: only None means 'no mode'" % ", ".join(falsy[:3]))
               for fp, text in lv]
@@ -1815,6 +1861,10 @@ def shrink(case, fails):
             c = copy.deepcopy(cur)
             c["pkg"]["init_classes"] = []
             cands.append(c)
+        if cur.get("iterfn") not in (None, "func"):
+            c = copy.deepcopy(cur)
+            c["iterfn"] = "func"
+            cands.append(c)
         if ns_kind(cur["pkg"]) != "once":
             for simpler in {"thrice": ["twice"], "split_twice": ["twice", "split"]}.get(ns_kind(cur["pkg"]), []) + ["once"]:
                 c = copy.deepcopy(cur)
@@ -1926,6 +1976,10 @@ def run(ctx):
                 ctx.count("run:disable()-during-loop,%s" % ("loop-goes-on" if later else "last-pass"))
         if o["attrerr"]:
             ctx.count("AttributeError")
+        for k in o.get("iterfn", []):
+            ctx.count("run:iter_fn=%s" % k)
+        if o.get("iterfn", []).count("list") >= 2:
+            ctx.count("run:the-same-iter_fn-list-passed-to-several-periods")
         if any(k != "None" and "/" in k for k in o["options"]):
             ctx.count("fms-renamed-duplicate")
     items = [("cases_%d" % k, cases_file(sh, base)) for k, sh in enumerate(shards(pairs, SHARD))]
@@ -2026,7 +2080,7 @@ def violation_of(case, obs, base, known=False):
         return None
     fp, text = vs[0]
     return {"kind": "input", "what": "fms=%s: %s" % (case["fms"], text), "fingerprint": fp, "case": case,
-            "observed": {k: obs.get(k) for k in ("imp", "nspath", "err", "exc", "ctors", "modes", "options", "default", "events", "mops", "attrerr", "problem")}}
+            "observed": {k: obs.get(k) for k in ("imp", "nspath", "iterfn", "iter_list_len", "err", "exc", "ctors", "modes", "options", "default", "events", "mops", "attrerr", "problem")}}
 
 
 def search_violation(ctx, base, bad, cases, obs):
@@ -2100,7 +2154,7 @@ def replay(ctx, obj):
     if o.get("harness_error"):
         print("harness error: %s" % o["harness_error"])
         return 1
-    print("fms=%s layout=%s" % (case["fms"], json.dumps(case["pkg"])[:600]))
+    print("fms=%s iter_fn=%s layout=%s" % (case["fms"], case.get("iterfn") or "func", json.dumps(case["pkg"])[:600]))
     print("calls=%s" % (case["ops"],))
     print("ops=%s   (run: [clock us, autonomous+enabled, disable() called during this pass] per loop pass)" % (o["mops"],))
     print("package=%s kind=%s: import_module() raises %s" % (pkg_import_name(case["pkg"]), case["pkg"]["kind"], import_text(o.get("imp"))))
@@ -2119,6 +2173,9 @@ def replay(ctx, obj):
     print("exception=%s constructor calls=%s" % (o["exc"], [c[1] for c in o["ctors"]]))
     print("modes=%s options=%s default=%r" % ([(k, i[1]) for k, i in o["modes"]], o["options"], o["default"]))
     print("callbacks=%s" % ([(k, i[1], t) for k, i, t in o["events"]],))
+    if o.get("iterfn"):
+        print("run(iter_fn=...) per period: %s%s" % (o["iterfn"], "; the caller's list has %s entries afterwards (2 when made)"
+                                                     % o["iter_list_len"] if "iter_list_len" in o else ""))
     vs = oracle(case, o, base)
     import shutil
     shutil.rmtree(ctx.work, ignore_errors=True)
